@@ -1,7 +1,7 @@
 """Per-property configuration: which binary/flavour, how many cases, gates, evidence text."""
 
 RUNNER_TUS = {
-    'runner': ['rc_driver.cpp', 'pbt_movegen.cpp', 'pbt_position.cpp', 'pbt_moves.cpp'],
+    'runner': ['rc_driver.cpp', 'pbt_movegen.cpp', 'pbt_position.cpp', 'pbt_moves.cpp', 'exh_tables.cpp', 'pbt_eval.cpp'],
 }
 
 ORACLE_ASSUMPTION = ('ref/refchess.h (independent mailbox rules oracle) is correct; it is validated on every run by '
@@ -152,7 +152,64 @@ PROPS['C18'] = dict(
     thorough=dict(cases=8000, shards=16, scale=6, min_nontrivial=200000),
 )
 
-HOOK_COMMITS = []
+PROPS['C11'] = dict(
+    level='exploration', flavour='fast',
+    technique='exhaustive enumeration (all squares x all relevant-occupancy subsets, all leaper/line table entries) + rapidcheck-generated full occupancies; oracle = ray walking',
+    level_text=('Complete enumeration of the finite table domain: 64 squares x every subset of the bishop/rook relevant blocker mask (107,648 entries, each also with all '
+                'irrelevant bits set), all 64 knight/king/pawn entries, all 64x64 LINES / FULL_LINES entries; plus generated arbitrary 64-bit occupancies. Oracle: coordinate ray walk to the first blocker inclusive.'),
+    level_note='Exhaustive over the table domain, so within that domain this is a decision, not a sample; arbitrary occupancies reduce to it by masking (also sampled).',
+    rule=('evaluations = table entries / lookups compared. Every enumerated entry is distinct by construction (counted in classes c11:slider_entries_enumerated); '
+          'distinct_nontrivial counts the distinct generated (square, full occupancy) pairs on top of the enumeration.'),
+    assumptions=['ray walk on an 8x8 coordinate grid is the definition of slider attacks'],
+    quick=dict(cases=300, shards=4, scale=3, exhaustive=True, gates={'c11:slider_entries_enumerated': 4 * 107648, 'c11:leaper_pawn_line_tables_enumerated': 4}, min_nontrivial=10000),
+    thorough=dict(cases=20000, shards=16, scale=3, exhaustive=True, gates={'c11:slider_entries_enumerated': 16 * 107648}, min_nontrivial=1000000),
+)
+PROPS['C12'] = dict(
+    level='exploration', flavour='fast',
+    technique='exhaustive enumeration of all legal KPK positions against an independent retrograde solver (generated-domain differential)',
+    level_text=('All legal KPK positions (both pawn colours, both sides to move, all files: 662k) are enumerated; truth comes from a retrograde least fix-point built on the rules oracle '
+                '(KPK with exact KQK / KRK successor tables for promotions; captures and minor promotions are draws); compared with bitbase::normalize+check and with the evaluator\'s win/draw band.'),
+    level_note=ORACLE_ASSUMPTION + '; black-pawn positions are obtained by the colour mirror of chess (ranks flipped, colours and side to move swapped).',
+    rule='evaluations = positions compared; all are distinct and non-trivial by construction (exhaustive: true); classes give totals per (pawn colour, side to move, file).',
+    assumptions=[ORACLE_ASSUMPTION],
+    quick=dict(cases=1, shards=1, scale=1, exhaustive=True, gates={'c12:positions': 600000}, min_nontrivial=600000),
+    thorough=dict(cases=1, shards=1, scale=1, exhaustive=True, gates={'c12:positions': 600000}, min_nontrivial=600000),
+)
+PROPS['C20'] = dict(
+    level='exploration', flavour='fast',
+    technique=PBT + '; invariants (0 <= t, 10t <= 7*time) and a metamorphic monotonicity relation over generated clock states',
+    level_text='Generated (time, increment, movestogo, ply, colour) tuples with boundary bias; each checked for non-negativity, the 70% cap (integer arithmetic) and monotonicity in the remaining time (pairs time, time+delta).',
+    level_note='Domain as stated in the property: time 0..24h ms, inc 0..10min, movestogo 0..200, ply 0..1000.',
+    rule='evaluations = calculateTime calls checked. Non-trivial = distinct tuples (every tuple exercises the invariants); pairs with delta in {1, 10, large} counted as classes.',
+    assumptions=[],
+    quick=dict(cases=1500, shards=16, scale=3, gates={'c20:tiny_time': 1000, 'c20:movestogo_1': 500, 'c20:pair_delta_1': 5000}, min_nontrivial=100000),
+    thorough=dict(cases=60000, shards=16, scale=3, min_nontrivial=5000000),
+)
+
+PROPS['C13'] = dict(
+    level='exploration', flavour='fast',
+    technique=PBT + '; metamorphic relation score(P) == score(colour-mirror(P))',
+    level_text=('Generated positions over a catalogue of 35 material signatures (every specialised endgame evaluator, both colours as the strong side, with geometric biases: rook-file pawns, '
+                'adjacent files, advanced pawns, kings on blockade/queening squares, pieces near the pawns) plus middlegames and many-queen positions; the evaluation must equal that of the mirrored position.'),
+    level_note='The mirror (ranks flipped, colours, rights, ep square, side swapped) is done on the FEN by the harness; a mismatch is re-checked with fresh evaluators so that cache defects (C14) are not blamed on symmetry.',
+    rule='evaluations = (position, mirror) pairs with sufficient mating material. Non-trivial = distinct positions (each pair exercises the relation); classes eval:sig_<signature>_<w|b> count the specialised classes per strong colour.',
+    assumptions=[],
+    quick=dict(cases=900, shards=16, scale=3, gates=dict([('eval:sig_%s_%s' % (n, c), 120) for n in ['KPK','KBPsKB2','KBPKB','KQKP','KRKP','KNNKP','KQKRP','KBPsK2','KPsK2','KNBK'] for c in 'wb']), min_nontrivial=30000),
+    thorough=dict(cases=40000, shards=16, scale=3, min_nontrivial=2000000),
+)
+PROPS['C14'] = dict(
+    level='exploration', flavour='fast',
+    technique=PBT + '; stateful histories on one long-lived evaluator compared with a fresh evaluator (model = fresh evaluation) + mate-band bound',
+    level_text=('Generated histories of eval(P) / clear() on one evaluator: positions repeating pawn structures with other pieces, pairs of pawn structures that share a cache slot (found by search over '
+                'this process\'s keys), a structure whose key maps to slot 0 followed by clear() and pawnless positions, extreme material; each result must equal a fresh evaluator\'s and stay outside the mate band.'),
+    level_note='Slot-colliding structures depend on the per-process random keys and are searched at start-up (counted in classes); the mate band is the engine\'s own score2str definition.',
+    rule='evaluations = warm-vs-fresh comparisons. Non-trivial = distinct histories containing an expected cache hit, a slot collision member, or clear-then-pawnless.',
+    assumptions=[],
+    quick=dict(cases=220, shards=16, scale=3, gates={'c14:pawn_cache_hit_expected': 300, 'c14:slot_collision_eval': 300, 'c14:pawnless_after_clear': 100, 'c14:slot0_structures_found': 1, 'c14:slot0_clear_pawnless_sequence': 20}, min_nontrivial=1000),
+    thorough=dict(cases=6000, shards=16, scale=3, gates={'c14:slot0_structures_found': 4}, min_nontrivial=50000),
+)
+
+HOOK_COMMITS = ['2ee17ca']
 
 NOT_APPLICABLE = [dict(property_id='C%02d' % i, reason='check not built yet in this session (work in progress, not a limit of the technique)')
                   for i in range(1, 21) if 'C%02d' % i not in PROPS]
